@@ -421,3 +421,6 @@ PROPS["C14"]["lean"] = ["DM.Props.C14", "DM.Props.C14Str"]
 PROPS["C14"]["explanation"] += " Data-level round trip (DM/Props/C14Str.lean): encode_str_roundtrip - whichever branch encode_str selects for a string (Latin-1 bytes without ECI if utf8_to_latin1 accepts it, otherwise its UTF-8 bytes behind 241,27), every successful run of the plan-driven encoder model decodes under the string decoder model to exactly the string's code points (latin1_string_roundtrip, utf8_string_roundtrip); eci_string_decode - behind any ECI designator up to 999999 the string decoder converts exactly the original bytes with that ECI's conversion. Proof: the decoder only appends to its ECI span list (mainLoop_frame), an ECI designator in ASCII mode is stepped over with the span recorded (eci_step, using C15's read_write_eci), then the encoder/decoder simulation of C01 (MainRT.run_decRun). Side conditions as in C01's mixed_roundtrip (no EDIFACT entry, no latch to a non-ASCII mode within the last four characters); messages that are a Macro 05/06 envelope are outside the theorem."
 PROPS["C14"]["level_text"] = "Partial proof (Latin-1 helpers; encode_str -> decode_str round trip on the encoder/decoder models for admissible plans) + exploration with specification oracle, exhaustive over one-character strings."
 PROPS["C14"]["unproved"] = ["string round trip for plans outside the side condition of mixed_roundtrip and for strings with a Macro 05/06 envelope; the planner-encoder coupling (the theorem is over every admissible plan, the optimiser's plans are checked against the side condition in the sweep)"]
+
+# ---- pixel-level entry points around valid symbols (harness gen c05p) ----
+PROPS["C05"]["gens"] = ["c05d", "c05r", "c05p"]
